@@ -72,6 +72,8 @@ def strategy(tier):
             # -2.8e-17): gradient entries that are 0 or +1e-17-sized, which minimize_oc clips to zero
             "czero": draw(st.sampled_from(["none", "none", "none", "zero", "roundoff"])),
             "pre_sens": draw(st.sampled_from([False, False, True])),   # sensitivities left in the network beforehand
+            # initial states that are integer-typed (np.ones(n, dtype=int), a python 1): for the first signal or for all
+            "int_start": draw(st.sampled_from(["none", "none", "none", "first", "all"])),
             "move": draw(st.sampled_from([0.2, 0.1, 0.3, 0.5])) if conv else
             draw(st.one_of(st.sampled_from([0.2, 0.1, 0.05, 0.5, 0.01]), st.floats(0.01, 0.5))),
             "vol": draw(st.floats(0.02, 0.98)) if conv else
@@ -219,6 +221,14 @@ def build_problem(case):
         if case["start"] == "on_bound":
             pick = rng.random(n)
             x0 = np.where(pick < 0.3, xmin, np.where(pick > 0.7, xmax, x0))
+    int_sigs = []
+    if case.get("int_start", "none") != "none" and case.get("var_form", "signals") in ("signals", "prealloc"):
+        for i in range(len(sizes) if case["int_start"] == "all" else 1):
+            sl = slice(int(cum[i]), int(cum[i + 1]))
+            cand = np.ceil(xmin[sl])
+            if np.all(cand <= xmax[sl]):           # an integer inside every box of this signal
+                x0[sl] = cand
+                int_sigs.append(i)
     vol = case["vol"]
     maxvol = None if vol is None else float(np.sum(xmin) + vol * np.sum(dx))
     kw = {"xmin": xmin_arg, "xmax": xmax_arg, "move": float(case["move"]), "maxit": case["maxit"],
@@ -228,7 +238,7 @@ def build_problem(case):
     for key in ("tolx", "tolf", "l1l2tol", "l2init"):
         if case[key] != "default":
             kw[key] = case[key]
-    prob = {"n": n, "sizes": sizes, "kinds": kinds, "cum": cum, "xmin": xmin, "xmax": xmax, "x0": x0, "kw": kw,
+    prob = {"int_sigs": int_sigs, "n": n, "sizes": sizes, "kinds": kinds, "cum": cum, "xmin": xmin, "xmax": xmax, "x0": x0, "kw": kw,
             "maxvol": float(np.sum(x0)) if maxvol is None else maxvol,
             "tolx": 1e-4 if case["tolx"] == "default" else case["tolx"],
             "tolf": 1e-4 if case["tolf"] == "default" else case["tolf"],
@@ -277,12 +287,14 @@ def run_oc(case, prob, log):
     for i, kind in enumerate(prob["kinds"]):
         v = prob["x0"][cum[i]:cum[i + 1]]
         state = float(v[0]) if kind == "pyfloat" else (np.float64(v[0]) if kind == "npfloat" else np.array(v))
+        if i in prob.get("int_sigs", ()):
+            state = int(v[0]) if kind == "pyfloat" else (np.int64(v[0]) if kind == "npfloat" else np.array(v).astype(int))
         if form == "slices":
             variables.append(base[int(cum[i]):int(cum[i + 1])])
         elif form == "fancy":
             variables.append(base[perm[int(cum[i]):int(cum[i + 1])]])
         elif form == "prealloc" and kind == "arr":
-            variables.append(pym.Signal(f"x{i}", state=state, sensitivity=np.zeros_like(state)))
+            variables.append(pym.Signal(f"x{i}", state=state, sensitivity=np.zeros(np.shape(state))))
         else:
             variables.append(pym.Signal(f"x{i}", state=state))
     net = pym.Network()
@@ -401,6 +413,8 @@ def check_case(case, _debug=None):
               f"l1l2tol:{case['l1l2tol']}", f"gexp:{case['gexp']}"]
     labels.append("bounds:" + case.get("bound_type", "float"))
     labels.append("variables:" + var_form(case, prob))
+    if prob.get("int_sigs"):
+        labels.append("integer_initial_state" + ("_mixed_with_float" if len(prob["int_sigs"]) < len(prob["sizes"]) else ""))
     if case.get("pre_sens"):
         labels.append("sensitivities_left_before_start")
     if "per_var" in (case["xmin_form"], case["xmax_form"]):
